@@ -117,6 +117,9 @@ func ghostSortOf(init *SExpr) Sort {
 		if init.Op == "upd" && len(init.Args) > 0 {
 			return ghostSortOf(init.Args[0])
 		}
+		if init.Op == "mapof" {
+			return arrSort(SInt, SInt)
+		}
 	}
 	return SInt
 }
@@ -129,6 +132,28 @@ func (ex *Exec) shiftTerm(st *State, left bool, x, y Term, bits uint, signed boo
 		st.pow2Seen = map[string]Term{}
 	}
 	p, ok := st.pow2Seen[key]
+	if !ok && !strings.Contains(y.S, "!q") {
+		// the shift amount mentions no bound variable: the power-of-two constant and its defining table are global to
+		// the function (a definitional extension: for every value of y some p satisfies the table), so the definition
+		// is never lost with the state a spec expression happened to be evaluated in (throw-away states under
+		// quantifiers, the entry snapshot used for known-finding conditions)
+		if ex.pow2Global == nil {
+			ex.pow2Global = map[string]Term{}
+		}
+		if g, seen := ex.pow2Global[key]; seen {
+			p, ok = g, true
+		} else {
+			p = ex.ctx.Fresh("pow2", SInt)
+			var cases []Term
+			for k := uint(0); k < bits; k++ {
+				cases = append(cases, tImp(tEq(y, intLit(int64(k))), tEq(p, bigLit(pow2(k)))))
+			}
+			cases = append(cases, tGe(p, intLit(1)))
+			ex.ctx.Axiom(tAnd(cases...).S)
+			ex.pow2Global[key] = p
+			ok = true
+		}
+	}
 	if !ok {
 		p = ex.ctx.Fresh("pow2", SInt)
 		var cases []Term
